@@ -12,8 +12,8 @@ pub fn same_class(a: &Violation, b: &Violation) -> bool {
 }
 
 fn still_fails(env: &Env, spec: &RunSpec, v: &Violation) -> bool {
-    let exp = model::expect(spec);
     let obs = exec::run(env, spec);
+    let exp = model::expect_in(spec, &obs.before);
     model::judge(spec, &exp, &obs).iter().any(|x| same_class(x, v))
 }
 
@@ -95,6 +95,16 @@ fn candidates(spec: &RunSpec) -> Vec<RunSpec> {
             s.files[i].1 = cand;
             c.push(s);
         }
+    }
+    if !spec.prior.is_empty() {
+        let mut s = spec.clone();
+        s.prior.clear();
+        c.insert(0, s);
+    }
+    for i in 0..spec.env.len() {
+        let mut s = spec.clone();
+        s.env.remove(i);
+        c.push(s);
     }
     for i in 0..spec.fifos.len() {
         for cand in text_candidates(&spec.fifos[i].1) {
